@@ -405,6 +405,13 @@ def apply(ex, ctx, st, f, args, dest_ty, term):
     name = f.get('name', '')
     key = ctx['key']
     line = term.get('line')
+    if dpath in ('core::ops::Fn::call', 'core::ops::FnMut::call_mut', 'core::ops::FnOnce::call_once',
+                 'core::ops::function::Fn::call', 'core::ops::function::FnMut::call_mut', 'core::ops::function::FnOnce::call_once'):
+        # a call through a generic `F: Fn(..)` parameter: the callee is whatever closure / fn item the value holds
+        tup = args[1] if len(args) > 1 else UNIT
+        if tup[0] != 'agg' or tup[1][0] != 'tuple':
+            raise Uncertified("call through a Fn trait with a non-tuple argument pack")
+        return call_closure(ex, ctx, st, args[0], list(tup[2]))
     # ---- logging (the `log` facade) and the formatting machinery it feeds: no effect on values; whether a message
     # is emitted is an uninterpreted condition, and the logger is assumed not to panic
     if path.startswith('log::') or ' as core::cmp::PartialOrd<log::' in path or path.startswith('<log::'):
@@ -1633,6 +1640,21 @@ def apply(ex, ctx, st, f, args, dest_ty, term):
         raise Uncertified("str::contains with a symbolic haystack")
     if path == 'core::str::<impl str>::chars':
         return m_iter('Chars', args[0], C(0, 'usize')), st
+    if 'Chars' in path and name == 'as_str':
+        it_ = ex.load(st, args[0]) if args[0][0] == 'ref' else args[0]
+        if it_[0] == 'agg' and it_[1] == ('model', 'Chars') and it_[2][1][0] == 'c':
+            # the rest of the text behind the characters already taken
+            return mk_call('str_from_char', (it_[2][0], it_[2][1]), 'str'), st
+        raise Uncertified("Chars::as_str on a cursor with a symbolic position")
+    if path == 'core::str::<impl str>::parse':
+        # FromStr of a local type
+        targs = [pdb.tys(t) for t in (f.get('resolved_targs') or f.get('targs') or [])]
+        for tname in targs:
+            for trn in ('core::str::FromStr', 'core::str::traits::FromStr'):
+                im = pdb.trait_impl(trn, tname)
+                if im is not None and 'from_str' in im['items']:
+                    return ex.call_fn(st, im['items']['from_str'], [args[0]], None, ctx['depth'] + 1)
+        raise Uncertified("str::parse into %s" % (targs,))
     if path == 'core::str::<impl str>::split_whitespace':
         return m_iter('SplitWs', args[0], C(0, 'usize')), st
     if path == 'core::str::<impl str>::split_ascii_whitespace':
